@@ -1,7 +1,7 @@
 (* PV.C07.Refuted — counter-models: one per guard conjunct that exists because the CODE fails, and regression
    `Example`s of the repaired behaviour for the findings that were fixed in /repo
    (C07-DECL-STALE-CAPTURE 0e1c190, C07-CLEANUP-ALIAS-CHAIN 185d1d3, C07-OBS-EXPR-FIRST-ASSIGNMENT df3152c,
-   C07-FIXED-THETAS-REMOVES-OMEGAS 142d5a3, C07-CLEANUP-DROPS-DV b7852b9).  No statement of C07 is refuted any more. *)
+   C07-FIXED-THETAS-REMOVES-OMEGAS 142d5a3, C07-CLEANUP-DROPS-DV b7852b9).  Refuted: mu_reference_piecewise_refuted. *)
 From Coq Require Import QArith List Bool PArith Arith.
 From PV Require Import Base.PyData Base.Expr Base.Interp Base.Stmts C07.Model.
 Import ListNotations.
@@ -105,3 +105,31 @@ Example cleanup_block_fixed :
   cleanup_m chain_known [sY] [(sSI, (1#2)%Q)] [mkDist [sE1; sW] [sSI; sVC]] dropdv_prog =
   ROk (cleanup_stmts [sY] [(sSI, (1#2)%Q)] [mkDist [sE1; sW] [sSI; sVC]] dropdv_prog).
 Proof. vm_compute. reflexivity. Qed.
+
+(* CL = Piecewise((TH1*exp(ETA1), W > 2), (TH2*exp(ETA1), True)): sympy.solve answers
+   mu_1 = Piecewise((0, W <= 2), (nan, True)) — for W > 2 the inserted mu is nan and CL is lost
+   (reproduced on the real mu_reference_model; finding C07-MU-REFERENCE-PIECEWISE-NAN).  [sSI] plays nan: a symbol
+   that never has a value. *)
+Definition sMU : id := 14%positive.
+Definition pw_prog : list stm :=
+  [SAssign sVC (PwCons (CRel OGt (Sym sW) (Num 2)) (Mul (Sym sT1) (Fn1 F_EXP (Sym sE1)))
+                       (PwCons CTrue (Mul (Sym sT2) (Fn1 F_EXP (Sym sE1))) PwNil));
+   SAssign sY (Sym sVC)].
+Definition pw_table : list (nat * (expr * expr)) :=
+  [(0%nat, (PwCons (CRel OLe (Sym sW) (Num 2)) (Num 0) (PwCons CTrue (Sym sSI) PwNil),
+            PwCons (CRel OGt (Sym sW) (Num 2)) (Mul (Sym sT1) (Fn1 F_EXP (Add (Sym sE1) (Sym sMU))))
+                   (PwCons CTrue (Mul (Sym sT2) (Fn1 F_EXP (Add (Sym sE1) (Sym sMU)))) PwNil)))].
+Theorem mu_reference_piecewise_refuted :
+  exists etas table l out,
+    mu_reference etas table l = Some out /\
+    g_mu_fresh etas table (find_eta_assignments (map fst etas) l) l = true /\
+    ~ (forall fi ode r x, ~ In x (inserted_mus etas table (find_eta_assignments (map fst etas) l) l 0) ->
+                          sexec fi ode r out x = sexec fi ode r l x).
+Proof.
+  exists [(sE1, sMU)], pw_table, pw_prog.
+  eexists. split; [vm_compute; reflexivity|]. split; [vm_compute; reflexivity|].
+  intro H. specialize (H std_fi std_ode (env_of [(sT1, 1); (sT2, 2); (sE1, 0); (sW, 4)]%Q) sY).
+  assert (Hn : ~ In sY (inserted_mus [(sE1, sMU)] pw_table (find_eta_assignments (map fst [(sE1, sMU)]) pw_prog) pw_prog 0)).
+  { vm_compute. intros [E|[]]. discriminate. }
+  specialize (H Hn). vm_compute in H. discriminate.
+Qed.
